@@ -165,10 +165,46 @@ impl ServeState {
         "ok".into()
     }
 
+    /// manifest of the current tree (everything under the scratch base of this tree):
+    /// sorted `path-hex:type:size:content-hash:mtime-ns:mode[:link-target-hex]`, joined by `,`
+    fn manifest(&self) -> String {
+        use std::os::unix::ffi::OsStrExt;
+        use std::os::unix::fs::MetadataExt;
+        let root = self.base.join(format!("t{}", self.counter));
+        let mut out: Vec<String> = vec![];
+        let mut stack = vec![root.clone()];
+        while let Some(d) = stack.pop() {
+            let rd = match std::fs::read_dir(&d) { Ok(r) => r, Err(_) => continue };
+            for e in rd.flatten() {
+                let p = e.path();
+                let md = match std::fs::symlink_metadata(&p) { Ok(m) => m, Err(_) => continue };
+                let rel = p.strip_prefix(&root).unwrap_or(&p).as_os_str().as_bytes().to_vec();
+                let ft = md.file_type();
+                let (ty, size, hash, extra) = if ft.is_symlink() {
+                    let t = std::fs::read_link(&p).map(|t| t.as_os_str().as_bytes().to_vec()).unwrap_or_default();
+                    ("l", 0u64, 0u64, format!(":{}", hex(&t)))
+                } else if ft.is_dir() {
+                    stack.push(p.clone());
+                    ("d", 0, 0, String::new())
+                } else {
+                    let c = std::fs::read(&p).unwrap_or_default();
+                    let mut h: u64 = 0xcbf29ce484222325;
+                    for b in &c { h ^= *b as u64; h = h.wrapping_mul(0x100000001b3); }
+                    ("f", c.len() as u64, h, String::new())
+                };
+                out.push(format!("{}:{}:{}:{:016x}:{}:{:o}{}", hex(&rel), ty, size, hash,
+                    md.mtime() as i128 * 1_000_000_000 + md.mtime_nsec() as i128, md.mode() & 0o7777, extra));
+            }
+        }
+        out.sort();
+        format!("ok {}", if out.is_empty() { "-".to_string() } else { out.join(",") })
+    }
+
     pub fn run(&mut self, op: &str, f: &[String]) -> String {
         match op {
             "tree" => self.build_tree(f),
             "env" => self.set_env(f),
+            "manifest" => self.manifest(),
             "proc" => {
                 if f.len() != 5 { return "bad-op".into(); }
                 let kind = if f[0] == "real" { AppKind::Real } else if f[0] == "okempty" { AppKind::OkEmpty }
